@@ -47,6 +47,10 @@ def _cases(ctx):
         db, roots = W.random_case(ctx.rng, max_inst=ctx.budget(50, 200), max_roots=5)
         v, lvl = protos[i % 4] if i % 4 == 0 or i % 7 == 0 else protos[0]
         yield db, roots, ctx.rng.choice([1, 2, 3, 4, 10, 25]), ctx.rng.choice(POLICIES), v, lvl, "random"
+    # big tables: the shared walk loop's bookkeeping after thousands of yields
+    for cols, rows, size in [(2, 5100 + ctx.rng.randrange(200), 25)] + ([] if ctx.quick else [(3, 7000 + ctx.rng.randrange(500), 10), (2, 16500, 50)]):
+        db, roots = W.large_case(cols, rows)
+        yield db, roots, size, {}, "v2c", "noauth", "large"
 
 
 def run(ctx):
@@ -62,6 +66,10 @@ def run(ctx):
         res.count(f"size:{size}")
         res.count("policy:" + (",".join(f"{k}={v}" for k, v in sorted(pol.items())) or "full"))
         case = {"db": db, "roots": roots, "size": size, "policy": pol, "version": version, "level": level}
+        shown = walk
+        if origin == "large":
+            case = {"large": [len(roots), len(db) // len(roots)], "roots": roots, "size": size, "policy": pol, "version": version, "level": level}
+            shown = W.summary(walk)
         bad = W.oracle_exact(db, roots, walk, per_binding=bool(pol.get("deep")))
         if bad and walk["outcome"] == ["error", ["authError"]] and agent.raw_log and auth_len127(agent.raw_log[-1][1]):
             res.count("hit:C10-len127")
@@ -76,7 +84,11 @@ def run(ctx):
             if a != b:
                 bad = "bulk walk and GETNEXT walk return different instance sets"
         if bad:
-            res.violate("e2e-bulk", case, "exactly the instances below the roots, as the GETNEXT walk", walk, bad, _signature(roots, bad))
+            res.violate("e2e-bulk", case, "exactly the instances below the roots, as the GETNEXT walk", shown, bad, _signature(roots, bad))
+        if origin == "large" and (ctx.quick or len(db) > 12000):
+            res.evaluations += 1  # oracle only (the list-based model needs ~15 s per 10^4 instances)
+            res.count("large:oracle-only")
+            continue
         reqs.append(W.model_request(spec, roots, "bulk", size=size, fuel=(len(db) + 8) * (len(roots) if pol.get("deep") else 1)))
         impls.append((case, walk, nb > 0 or len(db) > 0))
     if ctx.driver_ok:
@@ -108,8 +120,10 @@ def search(ctx, res):
 
 def replay(ctx, payload):
     case = payload["case"]
+    if "large" in case:
+        case["db"] = W.large_case(*case["large"])[0]
     walk, _ = W.impl_walk({"db": case["db"], "policy": case.get("policy", {})}, case["roots"], "bulk", size=case["size"], version=case.get("version", "v2c"), level=case.get("level", "noauth"), budget=len(case["db"]) + 8)
     bad = W.oracle_exact(case["db"], case["roots"], walk, per_binding=bool((case.get("policy") or {}).get("deep")))
-    print("trace", walk)
+    print("trace", W.summary(walk) if "large" in case else walk)
     print("oracle:", bad or "ok")
     return 1 if bad else 0
